@@ -98,7 +98,7 @@ def run(ctx):
     recs = run_cases(ctx, binary, cases, "gen")
 
     # U3: seeded random configuration pairs.
-    nrand = 1200 if quick else 20000
+    nrand = 1200 if quick else 60000
     rpath = ctx.path("random_cases.ndjson")
     ctx.run(binary, ["random", str(nrand), rpath])
     rcases = read_ndjson(rpath)
